@@ -10,3 +10,5 @@ for ID in "$@"; do
   echo "[$ID] exit=$CODE in $(( $(date +%s) - START ))s :: $(echo "$OUT" | grep -E "^--- " | head -3 | cut -c1-160 | tr '\n' ' ')"
 done
 git -C /repo checkout -- .
+# the binaries under /verif/target now contain the change: rebuild them from the restored tree
+(cd /verif && ./build.sh all > out/build-after-seed.log 2>&1) || echo "rebuild after revert FAILED (out/build-after-seed.log)"
